@@ -71,9 +71,9 @@ CLAIMED = {
    "jiff::Error's Display stubbed; jiff's own range checks are executed (DateTime::new) but Timestamp::from_second/from_microsecond error paths do not decide and are outside."),
  "C11": ("§4 C11",
    "Bounded model checking of the natively implemented stream combinators, i.e. the REAL macros limit!, skip!, first!, last!, while_gtz! and the generator range() of jaq-core/src/funs.rs, "
-   "instantiated with a harness-side context whose filter argument is a counting source: limit($n; f) is the first min($n, length) items for EVERY isize $n and pulls f exactly once per output (never the ($n+1)-th); "
-   "skip($n; f) is the errors among the first $n items followed by the rest ($n in {isize::MIN.., -1, 0, 1, 2, 3, 4, isize::MAX} as literals); hence limit ++ skip = f on error-free streams; first / last = first item / last item or first error; "
-   "range($from; $to; $by) on machine integers obeys `if TEST then $from, range($from+$by; ...) else empty` from EVERY integer state (< / > / != by the sign of $by), an overflowing step is reported once and ends the stream. "
+   "instantiated with a harness-side context whose filter argument is a counting source: limit($n; f) is the first min(ceil($n), length) items for EVERY isize and half-integer $n, pulls f exactly once per output (never the next one) and never starts f for $n <= 0; "
+   "skip($n; f) is the errors among the first $n items followed by the rest ($n in {-1, 0, 0.5, 1, 1.5, 2, 3, 4, isize::MAX} as literals); hence limit ++ skip = f on error-free streams; first / last = first item / last item or first error; "
+   "range($from; $to; $by) on machine integers obeys `if TEST then $from, range($from+$by; ...) else empty` from EVERY integer state (< / > / != by the sign of $by), an overflowing step is reported once and ends the stream, a non-numeric start yields itself and then the error of the addition (also for a zero step); the first output of foreach (real fold::fold) is delivered after exactly one update result. "
    "Streams of <= 3 items (6 thorough), each an output or an error. Narrow: the same macros' `paths` instances, range on floats / strings / arrays, and everything defined in jq (defs.jq: range/1,2, repeat, recurse, while, until, select, isempty, all, any, nth, add) "
    "or by the fold engine beyond its first output (reduce / foreach: the first pull of the real fold::fold is decided - one update result and one input item are computed before the first output - a second pull exhausts 12 GB) are outside the claim.",
    "V = MV (machine integers, exact-or-error arithmetic); item type Result<u8, Error<MV>> so that no other trait object in the crate shares the virtual call's signature. The generator's step relation is decided two pulls at a time "
